@@ -229,7 +229,7 @@ Fixpoint rename_tset (f : Z -> Z) (t : tset) : tset :=
   | TSym op s => TSym op (f s)
   | TUnion l => TUnion (map (rename_tset f) l)
   | TInter l => TInter (map (rename_tset f) l)
-  | TCompl s => TCompl (rename_tset f s)
+  | TCompl i s => TCompl i (rename_tset f s)
   | TNamed i => t
   end.
 
